@@ -54,7 +54,7 @@ THEOREMS = [
     "compatible_bernese_crd", "crd_reads_printed_coordinate", "compatible_bernese_clu", "compatible_bernese_sta_v52", "bernese_sta_v54_incompatible",
     "compatible_tms_header", "compatible_tms_file_reference", "compatible_tms_ref_coordinate", "compatible_tms_columns",
     "tms_blocks_wf", "blocks_balanced", "tms_rows_start_blank", "tms_types_shape",
-    "sta_fields_in_ruler", "tokens_pieces", "tms_tokens", "token_row_sound", "tms_domain_fits", "crd_domain_fits",
+    "sta_fields_in_ruler", "tms_fields_under_headers", "tokens_pieces", "tms_tokens", "token_row_sound", "tms_domain_fits", "crd_domain_fits",
     "fits_characterisation", "narrower_characterisation", "fix_readback",
 ]
 
@@ -175,6 +175,13 @@ def extract():
     t.rulers = [c.rstrip("\n") for c in sta_consts if c.startswith("****************      ***  YYYY MM DD HH MM SS")]
     if len(t.rulers) < 3:
         raise TranslateError("bernese_sta: the column rulers of sections 001-003 were not found")
+    # ---- the column header lines ("*INDEX TYPE_________ ...") the sinex_tms block methods write above their rows
+    t.tms_hdr = {}
+    for nm_, m_ in (("est", "solution_estimate"), ("refcoord", "timeseries_ref_coordinate"), ("columns", "timeseries_columns")):
+        sq_ = [x_ for x_ in tl.writer_sequence(W + "sinex_tms.py", m_) if x_[0] == "const"]
+        if len(sq_) < 3 or not sq_[1][1].startswith("*"):
+            raise TranslateError(f"sinex_tms.{m_}: column header line not found")
+        t.tms_hdr[nm_] = sq_[1][1].rstrip("\n")
     # ---- csv_: delimiter of the np.savetxt call
     t.csv_delim = None
     for n_ in tl.ast.walk(tl.functions(tl.module_ast(W + "csv_.py")).get("csv_", tl.ast.Module(body=[], type_ignores=[]))):
@@ -247,6 +254,8 @@ def gen_text(t):
     for i, r in enumerate(t.rulers[:3]):
         o.append(f"Definition ruler_sta{i + 1} : string := {emit.s(r)}.")
     o.append(f"Definition csv_delimiter : string := {emit.s(t.csv_delim)}.")
+    for nm_, h_ in t.tms_hdr.items():
+        o.append(f"Definition hdr_tms_{nm_} : string := {emit.s(h_)}.")
     o.append("")
     # parsers
     o.append(f"(* {P}bernese_crd.py genfromtxt delimiter {tuple(t.crd['delimiter'])} names {tuple(t.crd['names'])} *)")
@@ -1149,7 +1158,7 @@ def gen_tms_dataset(rng, ctx, edge):
     if edge is None and rng.random() < 0.35:
         d.meta["vel"] = gen_vel_meta(rng, day0)
         if rng.random() < 0.6:
-            d.meta["solution_description"] = OrderedDict([("time_series_model", rng.choice(["linear trend", "trend + annual"])),
+            d.meta["solution_description"] = dict([("time_series_model", rng.choice(["linear trend", "trend + annual"])),
                                                           ("outlier_rejection", "3 sigma")][:rng.randrange(1, 3)])
     return d, stations, rows, flat
 
@@ -1161,22 +1170,22 @@ def gen_vel_meta(rng, day0):
         return rng.choice([-1, 1]) * rng.choice([rng.uniform(1e-5, 0.05), 6.64e-3, 1.5e-11, 123.456, 9.9999999999999995e-4, 0.5, 2.5e-5])
     p1 = (day0.isoformat(), (day0 + timedelta(days=900)).isoformat())
     p2 = (p1[1], (day0 + timedelta(days=2000, seconds=3600)).isoformat())
-    vel = OrderedDict(interval=[[day0, day0 + timedelta(days=2000, seconds=3600)]])
+    vel = dict(interval=[[day0, day0 + timedelta(days=2000, seconds=3600)]])
     comps = rng.sample(["x", "y", "z", "e", "n", "u"], rng.randrange(1, 5))
     for key in rng.sample(["trend", "bias", "amp_annual", "phase_annual", "rms", "offset", "amp_semiannual"], rng.randrange(1, 5)):
-        vel[key] = OrderedDict()
+        vel[key] = dict()
         for c_ in comps:
             if key == "offset":
-                vel[key][c_] = OrderedDict([((day0 + timedelta(days=400)).isoformat(), val())])
+                vel[key][c_] = dict([((day0 + timedelta(days=400)).isoformat(), val())])
             elif key == "trend" and rng.random() < 0.7:
-                vel[key][c_] = OrderedDict([(p1, val()), (p2, val())])
+                vel[key][c_] = dict([(p1, val()), (p2, val())])
             else:
                 vel[key][c_] = val()
         if key in ("trend", "bias", "amp_annual") and rng.random() < 0.6:
-            vel[key + "_sigma"] = OrderedDict()
+            vel[key + "_sigma"] = dict()
             for c_ in comps:
                 v_ = vel[key][c_]
-                vel[key + "_sigma"][c_] = OrderedDict((k_, abs(val())) for k_ in v_) if isinstance(v_, dict) else abs(val())
+                vel[key + "_sigma"][c_] = dict((k_, abs(val())) for k_ in v_) if isinstance(v_, dict) else abs(val())
     return vel
 
 
@@ -1318,8 +1327,10 @@ def run_tms(ctx, t, acc, n_sets):
             for nme, ft in tms_module().ESTIMATE_PARAMETER_FIELD_TYPES.items():
                 v_ = dset.meta
                 for key in ft.keys:
-                    v_ = v_.get(key) if isinstance(v_, dict) else None
-                    if v_ is None:
+                    try:
+                        v_ = v_[key]
+                    except (KeyError, TypeError):
+                        v_ = None
                         break
                 if v_:
                     est[nme] = v_
